@@ -98,6 +98,9 @@ func (t *token) Float64() float64 {
 }
 
 func (t *token) Append(b *token) {
+	if b == nil {
+		panicf("missing operand") // an empty statement (;) where an operand is required
+	}
 	t.Tokens = append(t.Tokens, b)
 }
 
